@@ -133,3 +133,29 @@ fn enter_safepoint_contract() {
         assert!(unsafe { PARKS } == 0);
     }
 }
+
+/// the host-side wrapper: whatever happened during the run (the watchdog may have interrupted it),
+/// afterwards the engine is resumed and the watchdog disarmed
+#[kani::proof]
+fn run_with_timeout_contract() {
+    let c = any_controller();
+    let watchdog_side = c.clone();
+    let h = InterruptHandler { controller: c, running: Arc::new(AtomicBool::new(kani::any())), handle: GhostJoinHandle::default(), done: GhostSender::default() };
+    let fires: bool = kani::any();
+    let mut runs = 0u32;
+    let running_during = core::cell::Cell::new(false);
+    let r = h.run_with_timeout(|| {
+        runs += 1;
+        running_during.set(h.running.load(Ordering::SeqCst));
+        if fires {
+            // the watchdog's timeout elapses while the evaluation runs
+            watchdog_side.interrupt();
+        }
+        41u8
+    });
+    assert!(r == 41 && runs == 1);
+    assert!(running_during.get() && h.handle.t.unparks.get() == 1, "the watchdog must be armed and woken for the run");
+    assert!(h.done.sent.get() == 1 && !h.running.load(Ordering::SeqCst), "the watchdog must be told the run is over");
+    assert!(!h.controller.paused.load(Ordering::SeqCst) && h.controller.state.load() == ThreadState::Running,
+            "after an interrupted run the engine must be resumed, or the next evaluation fails immediately");
+}
